@@ -30,6 +30,8 @@ class MergeConfig(FnSpec):
     modifies = frozenset({"d_has", "d_get", "d_len"})
     may_raise = False
     check_guarantee = False
+    result_owned = "dict"           # fresh-result: the new dictionary is referenced by nobody but the caller
+    soft_requires = "A-BADARG"      # a non-dict argument makes merge_config raise (AttributeError/TypeError) before it writes anything that existed
 
     # --- abstraction of an argument: None and {} are the empty mapping
     @staticmethod
@@ -69,11 +71,15 @@ class MergeConfig(FnSpec):
         out += self._clauses(F.new, F.old, r, o, v, F.old.alloc, F.new.alloc)
         for c in ("d_has", "d_get", "d_len"):
             out.append((f"inputs-unmodified:{c}",
-                        z3.ForAll([d], z3.Implies(z3.And(0 <= d, d < F.old.alloc), F.same_at(c, d)),
+                        z3.ForAll([d], z3.Implies(d < F.old.alloc, F.same_at(c, d)),
                                   patterns=[z3.Select(F.new.h(c), d)])))
-        out.append(("only-result-written", z3.ForAll([d], z3.Implies(z3.Select(F.new.h("w_dict"), d), d == Val.a(r)),
-                                                     patterns=[z3.Select(F.new.h("w_dict"), d)])))
         return out
+
+    def local_ensures(self, F):
+        # about this activation's own write set (not meaningful at call sites: w_dict is activation-local)
+        d = z3.Const("d!mc", I)
+        return [("only-result-written", z3.ForAll([d], z3.Implies(z3.Select(F.new.h("w_dict"), d), d == Val.a(F.result.t)),
+                                                  patterns=[z3.Select(F.new.h("w_dict"), d)]))]
 
     def call_site_extra(self, F):
         # definitional folding: the result of a call that satisfies this contract is `Merged`
@@ -104,7 +110,7 @@ class MergeConfig(FnSpec):
                                                           z3.And(Merged(ck, getA, getB), Val.is_ref(ck), Val.a(ck) >= alloc_e,
                                                                  Val.a(ck) < C.alloc, is_dict_u(ck))), patterns=[ck])),
         ] + [
-            (f"old-dicts-unchanged:{c}", z3.ForAll([d], z3.Implies(z3.And(0 <= d, d < alloc_e),
+            (f"old-dicts-unchanged:{c}", z3.ForAll([d], z3.Implies(d < alloc_e,
                                                                    z3.Select(C.h(c), d) == z3.Select(E.h(c), d)),
                                                     patterns=[z3.Select(C.h(c), d)]))
             for c in ("d_has", "d_get", "d_len")
@@ -141,5 +147,7 @@ def register(reg):
     for q in ("_utils.qualified_name", "_utils.callable_name", "_utils.format_component_name",
               "_component.ComponentContext._format_resource_description"):
         reg.add(_pure_str(q))
+    reg.assumptions_text["A-BADARG"] = ("merge_config called with an argument that is neither None nor a dict raises an Exception "
+                                        "(AttributeError/TypeError from .copy()/.items()) before writing any object that existed")
     reg.assumptions_text["A-DIAG"] = ("qualified_name, callable_name, format_component_name, _format_resource_description "
                                       "(diagnostics only) are total, side-effect free and return a string")
